@@ -119,8 +119,16 @@ def check(case):
         return Result(fails=[('far-field:array-shapes', 'e_theta %s, e_phi %s, zen %s, azi %s, gain %s for %d x %d directions'
                               % (np.shape(ff.e_theta), np.shape(ff.e_phi), np.shape(ff.zen), np.shape(ff.azi), gain.shape, th[2], ph[2]))],
                       nontrivial=True, labels=labels)
-    P = pw if pw is not None else m.power
-    scale = math.sqrt(P / m.power) / dist
+    # the power the sources really deliver, from the voltages of the case and the solved currents (the far field is
+    # normalised with it; the program's own total is not taken on trust)
+    Vs_ = [complex(*s_['v']) for s_ in case['sources']]
+    p_true = sum(0.5 * (v_ * np.conj(I[s_['_idx']])).real for v_, s_ in zip(Vs_, case['sources']))
+    app_ = sum(0.5 * abs(v_ * I[s_['_idx']]) for v_, s_ in zip(Vs_, case['sources']))
+    if abs(m.power - p_true) > 1e-9 * app_:
+        return Result(fails=[('total-power', 'the program normalises with %r W, the sources deliver Re(sum V I*)/2 = %r W' % (m.power, p_true))],
+                      nontrivial=True, labels=labels)
+    P = pw if pw is not None else p_true
+    scale = math.sqrt(P / p_true) / dist
     # (1), (2) reference radiation integral
     ref_p = np.zeros(et.shape, complex)
     ref_q = np.zeros(et.shape, complex)
